@@ -3,6 +3,7 @@ package world
 import (
 	"errors"
 	"reflect"
+	"sync"
 
 	"github.com/go-kid/ioc/component_definition"
 	"github.com/go-kid/ioc/container"
@@ -499,3 +500,26 @@ type PlainPP struct {
 }
 
 func (p *PlainPP) Naming() string { return p.Nm }
+
+// DestructionPP is a destruction-aware post-processor that is interested in components of one marker kind
+// only (RequireDestruction answers false for everything else), the natural way to write one.
+type DestructionPP struct {
+	processors.DefaultComponentPostProcessor
+	mu   sync.Mutex
+	Hits map[string]int
+}
+
+func (p *DestructionPP) Naming() string { return "verif.destructionpp" }
+func (p *DestructionPP) PostProcessBeforeDestruction(c any, name string) error {
+	p.mu.Lock()
+	defer p.mu.Unlock()
+	if p.Hits == nil {
+		p.Hits = map[string]int{}
+	}
+	p.Hits[name]++
+	return nil
+}
+func (p *DestructionPP) RequireDestruction(c any) bool {
+	_, ok := c.(interface{ NeedsDestructionCallback() })
+	return ok
+}
